@@ -242,8 +242,9 @@ func (node *mastNode) follow(ctx context.Context, i int, createOk bool, mast *Ma
 	} else if !createOk {
 		return node, nil
 	} else {
+		// the new child is linked in by savePathForRoot, once its parent
+		// has been made mutable; the parent may be shared with other trees
 		child := emptyNodePointer(cap(node.Key))
-		node.Link[i] = child
 		return child, nil
 	}
 }
